@@ -352,7 +352,7 @@ def run(chk):
                            "TTL/identity/nonce boundary values); a case class = (type, version, string-length shape (0,1,2,3+ per string), accepted by decode); "
                            "distinct_nontrivial counts the classes actually executed on the real codec and decided by TLC")
     else:
-        cap = 8000 if not thorough else 250000
+        cap = 5000 if not thorough else 250000
         muts_run = muts if len(muts) <= cap else rng.sample(muts, cap)
         lines = []
         for i, (kind, b) in enumerate(muts_run):
@@ -367,7 +367,7 @@ def run(chk):
             picked += rng.sample(cand, min(len(cand), (2 if ty == 1 else 1) if not thorough else 4))
         hm = [msg_line(200000 + i, m, key(), mut=True) for i, m in enumerate(picked)]
         hm += [msg_line(300000 + i, random_message(rng), key(), mut=True) for i in range(4 if not thorough else 24)]
-        rnd = ["rand n=%d seed=%d maxlen=%d key=%s" % ((8000 if not thorough else 100000) // 4, rng.getrandbits(31), ml, key()) for ml in (40, 120, 300, 1200)]
+        rnd = ["rand n=%d seed=%d maxlen=%d key=%s" % ((6000 if not thorough else 100000) // 4, rng.getrandbits(31), ml, key()) for ml in (40, 120, 300, 1200)]
         all_lines = lines + hm + rnd
         jobs = []
         for part, label in ((lines, "tlc-mutations"), (hm, "harness-mutations"), (rnd, "random-buffers")):
